@@ -103,6 +103,7 @@ def sErr : Err → String
   | .nullGroups => "nullGroups" | .badGroupSignature => "badGroupSignature" | .dupGroups => "dupGroups"
   | .nullTrusts => "nullTrusts" | .dupTrusts => "dupTrusts" | .permEmptyMethod => "permEmptyMethod"
   | .permDupMethods => "permDupMethods" | .dupPermissions => "dupPermissions"
+  | .notSerializable => "notSerializable"
 
 /-- utf8.Valid. -/
 def utf8Valid : Bytes → Bool
@@ -164,6 +165,12 @@ def step (ws : List String) : Option String :=
     (pMan rest).map fun (m, gv) =>
       let verify (k s : Bytes) : Bool := ((gv.find? (fun x => x.1.key == k && x.1.sig == s)).map (·.2)).getD false
       match m.isValid Generated.ManifestConsts.validParamTypes verify (ch == "1") with
+      | none => "ok"
+      | some e => "err:" ++ sErr e
+  | "mvalidsz" :: ch :: rest =>
+    (pMan rest).map fun (m, gv) =>
+      let verify (k s : Bytes) : Bool := ((gv.find? (fun x => x.1.key == k && x.1.sig == s)).map (·.2)).getD false
+      match m.isValidFull Generated.ManifestConsts.validParamTypes verify (ch == "1") true compactJSON with
       | none => "ok"
       | some e => "err:" ++ sErr e
   | "mitem" :: rest =>
